@@ -192,18 +192,25 @@ func (p *Conn) checkProxyHeader() error {
 		return err
 	}
 
+	// LOCAL (v2) / UNKNOWN (v1): keep the real connection endpoints
+	if hdr.Command.IsLocal() {
+		return nil
+	}
+
 	// initial real src/dst address
 	srcAddr := net.JoinHostPort(hdr.SourceAddress.String(), fmt.Sprintf("%d", hdr.SourcePort))
 	p.srcAddr, err = net.ResolveTCPAddr(hdr.TransportProtocol.String(), srcAddr)
-	if err != nil { /* never go here */
+	if err != nil { /* unsupported family (e.g. udp, unix) or address not usable for it */
 		p.Close()
+		p.headerErr = err
 		return err
 	}
 
 	dstAddr := net.JoinHostPort(hdr.DestinationAddress.String(), fmt.Sprintf("%d", hdr.DestinationPort))
 	p.dstAddr, err = net.ResolveTCPAddr(hdr.TransportProtocol.String(), dstAddr)
-	if err != nil { /* never go here */
+	if err != nil { /* unsupported family (e.g. udp, unix) or address not usable for it */
 		p.Close()
+		p.headerErr = err
 		return err
 	}
 
